@@ -145,7 +145,11 @@ func (fc *FnCtx) calleeEnv(con *Contract, fn *ssa.Function, sig *types.Signature
 	if fn != nil {
 		env.calleeFn = fn
 		env.finalCache = map[string]envVar{}
-		env.pkg = fn.Pkg.Pkg
+		if fn.Pkg != nil {
+			env.pkg = fn.Pkg.Pkg
+		} else if o := fn.Origin(); o != nil && o.Pkg != nil {
+			env.pkg = o.Pkg.Pkg // instantiation of a generic function
+		}
 		for i, p := range fn.Params {
 			if i < len(args) {
 				env.vars[fmt.Sprintf("arg%d", i)] = envVar{args[i], p.Type()}
